@@ -953,6 +953,14 @@ namespace via
               request_.set_method(request_method::GET);
             return Rx::VALID;
           }
+
+          // If parsed the request header, respond if the client is waiting
+          // for permission to send the body
+          if (request_parsed && request_.expect_continue() && !continue_sent_)
+          {
+            response_code_ = response_status::code::CONTINUE;
+            return Rx::EXPECT_CONTINUE;
+          }
         }
         else // request_.is_chunked()
         {
